@@ -69,81 +69,76 @@ Section CanAssign.
     | GAnyv => VLeaf (LAny any_generic_argument)
     end.
 
-  Fixpoint can_assign_f (n : nat) (excl : bool) (A B : val) {struct n} : bool :=
-    match n with
-    | O => false
-    | S n' =>
-      let rec := can_assign_f n' excl in
-      (* Value.can_assign *)
-      let base :=
-        match B with
-        | VLeaf (LAny _) => if excl then veq A B else true
-        | VUnion vs => forallb (rec A) vs
-        | VNode (TAnnot _) [b] => rec A b
-        | _ => veq A B
-        end in
-      (* TypedValue.can_assign for TypedValue(d, literal_only = lit) *)
-      let typed_path (d : N) (lit : bool) :=
-        match B with
-        | VLeaf (LKnown o) | VLeaf (LKnownTV o) => nominal ct (class_of o) d
-        | VLeaf (LTyped c lit') => (negb lit || lit') && tassign ct c d
-        | VNode (TSubclass _) [t] =>
-            match t with
-            | VLeaf (LTyped _ _) | VLeaf (LNewType _ _) | VNode (TGeneric _) _ | VNode (TSeq _ _) _ => tassign ct c_type d
-            | VLeaf (LAny _) | VNode (TTypeVar _ _) _ => true
-            | _ => base
-            end
-        | _ =>
-            match B with
-            | VLeaf (LKnown _) | VLeaf (LKnownTV _) => base
-            | _ =>
-              match typed_view B with
-              | Some (c, _, _) => negb lit && tassign ct c d
-              | None => base
-              end
-            end
-        end in
-      (* GenericValue.can_assign for GenericValue(d, args) *)
-      let generic_path (d : N) (args : list val) :=
-        let B' := expand_known (strip_annot B) in
-        match B' with
-        | _ =>
-          match typed_view B' with
-          | Some (c, bargs, has_args) =>
-              match (if has_args then gb_args ct c d else gb_noargs ct c d) with
-              | Some gs =>
-                  if Nat.eqb (length args) (length gs) then
-                    match args with [] => false | _ => true end &&
-                    forallb (fun p => rec (fst p) (garg_val bargs (snd p))) (combine args gs)
-                  else typed_path d false
-              | None => typed_path d false
-              end
-          | None => typed_path d false
+  (* one unfolding of can_assign, with the recursive calls abstracted as [rec] *)
+  Section Step.
+    Context (excl : bool) (rec : val -> val -> bool).
+
+    (* Value.can_assign *)
+    Definition base_rule (A B : val) : bool :=
+      match B with
+      | VLeaf (LAny _) => if excl then veq A B else true
+      | VUnion vs => forallb (rec A) vs
+      | VNode (TAnnot _) [b] => rec A b
+      | _ => veq A B
+      end.
+
+    (* TypedValue.can_assign for TypedValue(d, literal_only = lit) standing for A *)
+    Definition typed_path (A B : val) (d : N) (lit : bool) : bool :=
+      match B with
+      | VLeaf (LKnown o) | VLeaf (LKnownTV o) => nominal ct (class_of o) d
+      | VLeaf (LTyped c lit') => (negb lit || lit') && tassign ct c d
+      | VNode (TSubclass _) [t] =>
+          match t with
+          | VLeaf (LTyped _ _) | VLeaf (LNewType _ _) | VNode (TGeneric _) _ | VNode (TSeq _ _) _ => tassign ct c_type d
+          | VLeaf (LAny _) | VNode (TTypeVar _ _) _ => true
+          | _ => base_rule A B
           end
-        end in
+      | _ =>
+          match typed_view B with
+          | Some (c, _, _) => negb lit && tassign ct c d
+          | None => base_rule A B
+          end
+      end.
+
+    (* GenericValue.can_assign for GenericValue(d, args) standing for A *)
+    Definition generic_path (A B : val) (d : N) (args : list val) : bool :=
+      match typed_view (expand_known (strip_annot B)) with
+      | Some (c, bargs, has_args) =>
+          match (if has_args then gb_args ct c d else gb_noargs ct c d) with
+          | Some gs =>
+              if Nat.eqb (length args) (length gs) then
+                match args with [] => false | _ => true end &&
+                forallb (fun p => rec (fst p) (garg_val bargs (snd p))) (combine args gs)
+              else typed_path A B d false
+          | None => typed_path A B d false
+          end
+      | None => typed_path A B d false
+      end.
+
+    Definition ca_step (A B : val) : bool :=
       match A with
       | VLeaf (LAny _) =>
           match B with
-          | VUnion _ | VNode (TAnnot _) _ => base
+          | VUnion _ | VNode (TAnnot _) _ => base_rule A B
           | _ => true
           end
       | VLeaf (LKnown o) | VLeaf (LKnownTV o) =>
           match B with
           | VLeaf (LKnown o') | VLeaf (LKnownTV o') => same_literal o o'
-          | _ => base
+          | _ => base_rule A B
           end
-      | VLeaf (LTyped d lit) => typed_path d lit
+      | VLeaf (LTyped d lit) => typed_path A B d lit
       | VLeaf (LNewType nt d) =>
           match B with
           | VLeaf (LNewType nt' _) => N.eqb nt nt'
           | VLeaf (LKnown o) | VLeaf (LKnownTV o) => N.eqb (class_of o) d && nominal ct (class_of o) d
           | _ =>
               match typed_view B with
-              | Some (c, _, _) => N.eqb c d && typed_path d false
-              | None => typed_path d false
+              | Some (c, _, _) => N.eqb c d && typed_path A B d false
+              | None => typed_path A B d false
               end
           end
-      | VLeaf LUninit => base
+      | VLeaf LUninit => base_rule A B
       | VUnion vs =>
           match B with
           | VUnion bs => forallb (rec A) bs
@@ -161,20 +156,26 @@ Section CanAssign.
               | Some (d, _, _) => tassign ct c' d
               | None => false
               end
-          | VLeaf (LTyped c _) => N.eqb c c_type || base
-          | _ => base
+          | VLeaf (LTyped c _) => N.eqb c c_type || base_rule A B
+          | _ => base_rule A B
           end
-      | VNode (TGeneric d) args => generic_path d args
+      | VNode (TGeneric d) args => generic_path A B d args
       | VNode (TSeq d flags) (a :: ms) =>
           match seq_view (strip_annot B) with
           | Some (c, bms) =>
               tassign ct c d && Nat.eqb (length ms) (length bms) &&
               forallb (fun p => Bool.eqb (fst (fst p)) (fst (snd p)) && rec (snd (fst p)) (snd (snd p)))
                       (combine (combine flags ms) bms)
-          | None => generic_path d [a]
+          | None => generic_path A B d [a]
           end
       | _ => false
-      end
+      end.
+  End Step.
+
+  Fixpoint can_assign_f (n : nat) (excl : bool) (A B : val) {struct n} : bool :=
+    match n with
+    | O => false
+    | S n' => ca_step excl (can_assign_f n' excl) A B
     end.
 End CanAssign.
 
